@@ -20,6 +20,7 @@ func scenC08(k *K) {
 	n := k.C.Range(1, 3)
 	c := k.NewCluster(ClusterCfg{N: n, Type: "eventlog"})
 	k.F = swarmFaults(k, true)
+	c.FetchFailures()
 	nops := k.C.Range(3, 12)
 	if Tier == "thorough" {
 		nops = k.C.Range(3, 30)
